@@ -35,7 +35,9 @@ import (
 	"time"
 )
 
-const verifDir = "/verif"
+// root of the verification tree: the directory above the one holding this binary
+// (/verif for the registered checks; a snapshot directory under `vp run`)
+var verifDir = "/verif"
 
 type verdict struct {
 	OK         bool     `json:"ok"`
@@ -106,6 +108,11 @@ func cgo() string {
 }
 
 func main() {
+	if exe, err := os.Executable(); err == nil {
+		if d := filepath.Dir(filepath.Dir(exe)); fileExists(filepath.Join(d, "spec")) {
+			verifDir = d
+		}
+	}
 	prop := flag.String("p", "", "property id")
 	tierF := flag.String("tier", "", "quick | thorough (default $VERIF_TIER or quick)")
 	replay := flag.String("replay", "", "replay one recorded case file")
@@ -163,6 +170,11 @@ func main() {
 		}
 	}
 	code = conclude(cfg, res, time.Since(start))
+}
+
+func fileExists(p string) bool {
+	_, err := os.Stat(p)
+	return err == nil
 }
 
 func buildWorker(cfg *propCfg) error {
